@@ -344,8 +344,8 @@ def r5_handlers(run):
             continue
         if hi.fi.qual.endswith("status_ok") and hi.caught == ["Exception"]:
             # `except Exception: msg = "Unknown error"` around a message lookup
-            ok = hi.body_calls() == [] and len(hi.try_stmt.body) == 1 and \
-                isinstance(hi.try_stmt.body[0], ast.Assign)
+            ok = hi.body_calls() == [] and hi.try_stmt.body and \
+                all(isinstance(s, ast.Assign) for s in hi.try_stmt.body)
             run.check(ok, "R5", hi.key, "guards only the message text lookup",
                       "handler in status_ok now encloses calls: %s" %
                       hi.body_calls(), hi.loc())
